@@ -1,6 +1,6 @@
 (* C01 -- Commit is atomic and durable across a crash at any instant.
    Only statements, each closed by `exact <lemma>`, and their assumptions. *)
-From TV Require Import Base.Prelude Storage.Crash Storage.CrashProofs.
+From TV Require Import Base.Prelude Storage.Crash Storage.CrashProofs Storage.WriteOnce Storage.WriteOnceProofs Storage.WriterStack Storage.WriterStackProofs.
 Local Open Scope N_scope.
 
 (* For every storage trace accepted by the commit discipline, every crash point k and every
@@ -96,3 +96,44 @@ Proof. exact (conj (proj1 ex_shape) (proj1 (proj2 (proj2 ex_shape)))). Qed.
 
 Print Assumptions C01_all_histories.
 Print Assumptions C01_all_histories_crash_safe.
+
+(* ---- the two assumptions Crash.v makes about the Directory, discharged on models tied to the code ---- *)
+(* (1) stream files (WriteOnce.v, tied to the VerifDirectory log of every run): at every moment of a log that
+   obeys create / append* / terminate / nothing-afterwards, every terminated file is durable to its last byte ... *)
+Theorem C01_terminated_data_is_durable : forall t1 t2 p f,
+  wmonitor (t1 ++ t2) = true -> wget (wrun t1) p = Some f -> w_term f = true -> w_synced f = w_len f.
+Proof. exact terminated_is_durable. Qed.
+(* ... and it is never touched again *)
+Theorem C01_terminated_data_is_final : forall t2 s p f,
+  wmonitor_from s t2 = true -> wget s p = Some f -> w_term f = true -> wget (fold_left wstep t2 s) p = Some f.
+Proof. exact terminated_is_final. Qed.
+
+(* (2) the real directory's primitives (WriterStack.v, call orders regenerated from the source by tools/pin.py):
+   terminate through FooterProxy(BufWriter(SafeFileWriter)) leaves payload AND footer durable, nothing buffered *)
+Theorem C01_terminate_makes_everything_durable : forall s footer,
+  let s' := prun s (terminate_prims footer) in f_dur s' = f_all s ++ footer /\ f_buf s' = [] /\ f_os s' = f_dur s'.
+Proof. exact terminate_makes_everything_durable. Qed.
+
+(* atomic_write: at EVERY crash point of its primitive steps, whether or not the rename reached the disk and however
+   much un-synced data did, the target name shows the old content or exactly the new content *)
+Theorem C01_atomic_write_is_atomic : forall content old j rs k,
+  let v := visible old (prun fs0 (firstn j (atomic_write_prims content))) rs k in v = old \/ v = Some content.
+Proof. exact atomic_write_is_atomic. Qed.
+(* ... as does every sequence of primitives that renames only a fully synced file and leaves it alone afterwards *)
+Theorem C01_disciplined_replace_is_atomic : forall l old j rs k,
+  pmonitor_from fs0 l = true ->
+  visible old (prun fs0 (firstn j l)) rs k = old \/ visible old (prun fs0 (firstn j l)) rs k = Some (f_os (prun fs0 l)).
+Proof. exact disciplined_replace_is_atomic. Qed.
+(* the orders that are NOT safe (witnesses): rename before the data is synced; footer stamped after the only fsync *)
+Theorem C01_persist_before_sync_refuted :
+  exists j rs k, let v := visible (Some [9]) (prun fs0 (firstn j (atomic_prims [1; 2; 4; 3] [1; 2; 3]))) rs k in
+                 v <> Some [9] /\ v <> Some [1; 2; 3].
+Proof. exact persist_before_sync_refuted. Qed.
+Theorem C01_footer_after_sync_refuted :
+  exists s footer, f_dur (prun s (footer_prims [2; 1; 3] [3; 2] [3; 4] footer)) <> f_all s ++ footer.
+Proof. exact footer_after_sync_refuted. Qed.
+
+Print Assumptions C01_terminated_data_is_durable.
+Print Assumptions C01_terminate_makes_everything_durable.
+Print Assumptions C01_atomic_write_is_atomic.
+Print Assumptions C01_disciplined_replace_is_atomic.
